@@ -350,6 +350,23 @@ def treebox_part(ctx, thorough):
             ctx.violation("CallSucceeds", TSITE, t["sig"], repr(e), case=arr)
             continue
         traces.append(t)
+        if k % 25 == 0:
+            # a batch of tens of thousands of rows (block-wise implementations have edges there): the same answer as
+            # scikit-learn's own routing, row by row
+            from mlinsights.mltree import predict_leaves as _pl
+            nq = rng.choice([50001, 33000, 70123])
+            Q = numpy.array([[rng.randint(-R - 1, R + 1) for _ in range(d)] for _ in range(257)], dtype=numpy.float64)[
+                numpy.array([rng.randrange(257) for _ in range(nq)])]
+            ctx.evaluations += 1
+            try:
+                got = numpy.asarray(_pl(model, Q)).ravel()
+                want = model.apply(Q)
+                if got.shape != want.shape or not numpy.array_equal(got, want):
+                    bad = int(numpy.flatnonzero(got != want)[0]) if got.shape == want.shape else -1
+                    ctx.violation("PredictLeavesIsApply", TSITE + ".predict_leaves", "batch of %d rows" % nq,
+                                  dict(first_bad_row=bad, n=nq), case=arr)
+            except Exception as e:
+                ctx.violation("CallSucceeds", TSITE + ".predict_leaves", "batch of %d rows" % nq, repr(e), case=arr)
     verdicts, st = tlc.validate("TreeBoxTrace", "TreeBoxTrace.cfg", traces)
     ctx.states += st["states"]
     ctx.transitions += st["transitions"]
